@@ -1,4 +1,6 @@
 -- property: C08
+-- assumes: the received evaluations are evaluations of the dealt polynomials at the receiver's identifier (what the Feldman check of the acceptance gate verifies in the exponent)
+-- assumes: every dealt polynomial has degree at most t (degree gate) and the identifier scalars are pairwise distinct and non-zero
 -- Refresh preserves the key. Composition lemma over contracts proved on the real code:
 --   CMP keygen round 3 / FROST keygen round 2 (refresh): a dealt polynomial is accepted only with ZERO constant term
 --   CMP keygen round 4 / FROST keygen round 3: new share = previous share + sum of the received evaluations (a new object;
